@@ -1,5 +1,6 @@
 import QV.Model.Compiler
 import QV.Proofs.Circuit
+import QV.Proofs.CompilerClean
 /-!
 # C06 – Predicates compile to xor-oracles: |x>|y> -> |x>|y xor f(x)>
 
@@ -108,5 +109,82 @@ theorem ret_as_control_witness :
     validateClean [{ cls := .CX, wires := [0, 2] }, { cls := .CX, wires := [2, 1] }, { cls := .CX, wires := [0, 1] }] 3 1 [2] = true ∧
     validateXor [{ cls := .CX, wires := [0, 2] }, { cls := .CX, wires := [2, 1] }, { cls := .CX, wires := [0, 1] }] 3 1 2 (fun x => x.getD 0 false) = false := by
   decide
+
+/-! ## Xor-oracles on the proved fragment (`QV/Proofs/CompilerClean.lean`) -/
+
+theorem runClassical_length' (gs : List AGate) : ∀ s : BState, (runClassical gs s).length = s.length := by
+  induction gs with
+  | nil => intro s; rfl
+  | cons g gs ih => intro s; rw [runClassical_cons, ih, stepClassical_length]
+
+theorem ext_getD {a b : List Bool} (hl : a.length = b.length) (h : ∀ i, a.getD i false = b.getD i false) :
+    a = b := by
+  apply List.ext_getElem hl
+  intro i h1 h2
+  have := h i
+  simpa [List.getD_eq_getElem?_getD, List.getElem?_eq_getElem h1, List.getElem?_eq_getElem h2] using this
+
+/-- **C06 on the tree-like single-definition fragment without De Morgan `Or`** (`inXorFragment`:
+`inCleanFragment`, and the defined name is a return name `_ret…` or the expression is compound, so the
+output qubit is not an argument qubit), with `uncompute = true`: for every successful run of the
+compiler model the qubit `q` of the return name is never a control (`retNeverControl`) and the circuit
+is an xor-oracle `|x>|y> -> |x>|y xor f(x)>` on `q` for the function the definition denotes – inputs
+unchanged, every other qubit back to zero, for both values of `y`.  From `C03_fragment_partial`'s
+helper (`compile_single_clean`), `C02`'s `compile_single_sem` and `xor_oracle_of_clean`. -/
+theorem C06_fragment_partial (inputs : List String) (defs : List (String × BExp)) (rets : List String)
+    (choices : List Nat) (s : CState)
+    (hf : inXorFragment inputs defs rets = true)
+    (h : (compile inputs defs (some rets) true).run { choices := choices } = .ok ((), s)) :
+    ∀ r ∈ rets, ∃ q, dictGet? s.qc.qmap r = some q ∧ inputs.length ≤ q ∧
+      retNeverControl s.qc.gates.toList q = true ∧
+      XorOracle s.qc.gates.toList s.qc.numQubits inputs.length q
+        (fun x => envOf (evalDefs defs (inputs.zip x)) r) := by
+  match defs, hf, h with
+  | [(r, e)], hf, h =>
+    simp only [inXorFragment, inCleanFragment, inFragment, Bool.and_eq_true, decide_eq_true_eq, List.all_eq_true,
+      bne_iff_ne, ne_eq, Bool.not_eq_true', beq_iff_eq, Bool.or_eq_true] at hf
+    obtain ⟨⟨⟨⟨⟨⟨⟨hnd, hfr⟩, hov⟩, htl⟩, hrets⟩, _⟩, hso⟩, hout⟩ := hf
+    intro r' hr'
+    have hrr : r' = r := hrets r' hr'
+    subst hrr
+    have hgs : Good s := (compile_ok h).1
+    have hx0 : (List.replicate inputs.length false).length = inputs.length := by simp
+    obtain ⟨q, hq, _, hge, hnc, _⟩ :=
+      compile_single_clean h rfl hr' hnd (fun n hn => hfr n hn) hov htl hso _ hx0
+    have hqn : inputs.length ≤ q := hge hout
+    have hqlt : q < s.qc.numQubits := hgs.qmap_lt _ (dictGet?_mem hq)
+    refine ⟨q, hq, hqn, hnc hqn, ?_⟩
+    apply xor_oracle_of_clean _ _ _ _ _ hqn (hnc hqn)
+    intro x hx
+    obtain ⟨q', hq', hcl, _, _, _⟩ :=
+      compile_single_clean h rfl hr' hnd (fun n hn => hfr n hn) hov htl hso x hx
+    obtain ⟨q'', hq'', hv⟩ := compile_single_sem h (fun _ => hr') hnd (fun n hn => hfr n hn) hov htl x hx
+    rw [hq] at hq' hq''
+    cases hq'; cases hq''
+    apply ext_getD
+    · rw [runClassical_length', List.length_set]
+    · intro i
+      by_cases hi : i = q
+      · subst hi
+        rw [hv]
+        have hl : i < (initState x s.qc.numQubits).length := by
+          rw [initState_length x _ (by rw [hx]; omega)]; exact hqlt
+        simp [List.getD_eq_getElem?_getD, hl, evalDefs, envOf]
+      · rw [hcl i hi]
+        simp [List.getD_eq_getElem?_getD, Ne.symm hi]
+
+/-- an instance of the class of `C06_fragment_partial` -/
+example : inXorFragment ["a", "b", "c"]
+    [("_ret", .and [.or [.and [.sym "a", .not (.sym "b")], .xor [.sym "c", .not (.and [.sym "a", .sym "c"])]],
+                    .sym "b"])] ["_ret"] = true := by
+  decide +kernel
+
+/-- the part of `inCleanFragment` the class excludes: a bare argument symbol under a name that is not a
+return name is an alias of the argument qubit (no gate at all), which is clean but not an xor-oracle
+on that qubit -/
+theorem C06_fragment_alias_witness :
+    inCleanFragment ["a"] [("r", .sym "a")] ["r"] = true ∧ inXorFragment ["a"] [("r", .sym "a")] ["r"] = false ∧
+    validateClean [] 1 1 [0] = true ∧ validateXor [] 1 1 0 (fun x => x.getD 0 false) = false := by
+  decide +kernel
 
 end QV.C06
